@@ -25,7 +25,7 @@ META = {
             "Wire.Ipfix.minRecLen, minRecLen_is_shortest) and the padding of a template set is at most 4 octets (RFC: 0..3); "
             "the former hypotheses 'record longer than 4 octets' (finding K2) and '<= 4 padding octets' were forced by the "
             "decoder's constant `> 4`, not by the RFC: under the second, 5..7 octets of padding after records of >= 8 octets "
-            "lost the whole message (F16). Both are repaired in the code (fix aeca3ca) and gone from the theorems; "
+            "lost the whole message (F16). Both are repaired in the code (fix 3c79378) and gone from the theorems; "
             "k2_repaired / k3_repaired evaluate the former counterexamples. Further: set length < 65536, non-empty sets, "
             "template ids != 0, a template "
             "record has >= 1 field, enterprise elements have id >= 1, the data set's template is what Cache.lookup returns "
